@@ -16,14 +16,16 @@ Proof.
   intros k n.
   assert (H : N.land n (2 ^ k - 1) = n mod 2 ^ k).
   { rewrite <- N.land_ones. f_equal. rewrite N.ones_equiv, N.pred_sub. reflexivity. }
-  split; [|exact H].
-  assert (HZ : Z.land (Z.of_N n) (Z.of_N (2 ^ k - 1)) = Z.of_N (n mod 2 ^ k)).
-  { assert (P : (0 < 2 ^ k)) by (apply N.neq_0_lt_0, N.pow_nonzero; discriminate).
-    rewrite N2Z.inj_sub by lia. rewrite N2Z.inj_mod, N2Z.inj_pow.
-    change (Z.of_N 2) with 2%Z. change (Z.of_N 1) with 1%Z.
-    rewrite <- Z.land_ones by lia. f_equal. rewrite Z.ones_equiv. lia. }
-  unfold go_sessions_index. f_equal.
-  first [exact HZ | rewrite Z.land_comm; exact HZ].
+  split; [|exact H]. intro Hpresent.
+  first
+    [ discriminate Hpresent
+    | assert (HZ : Z.land (Z.of_N n) (Z.of_N (2 ^ k - 1)) = Z.of_N (n mod 2 ^ k))
+        by (assert (P : (0 < 2 ^ k)) by (apply N.neq_0_lt_0, N.pow_nonzero; discriminate);
+            rewrite N2Z.inj_sub by lia; rewrite N2Z.inj_mod, N2Z.inj_pow;
+            change (Z.of_N 2) with 2%Z; change (Z.of_N 1) with 1%Z;
+            rewrite <- Z.land_ones by lia; f_equal; rewrite Z.ones_equiv; lia);
+      unfold go_sessions_index; f_equal;
+      first [exact HZ | rewrite Z.land_comm; exact HZ] ].
 Qed.
 
 Print Assumptions index_equiv.
